@@ -214,7 +214,21 @@ def s_idle (ctx, p):
     def run (self):
       st["ran"] += 1
       yield False
+  class Bad (R.BaseTask):
+    # a task that dies with an exception on its first step; the tasks queued behind it must still run
+    def run (self):
+      raise ValueError("task fails")
+      yield False
+  if p.get("bad"):
+    # the scheduler prints a traceback for every task that dies; keep the check's output readable
+    import types
+    R.print = lambda *a, **k: None
+    R.traceback = types.SimpleNamespace(print_exc=lambda *a, **k: None, format_exc=lambda *a, **k: "")
   def foreign ():
+    for i in range(p.get("bad", 0)):
+      b = Bad()
+      if p.get("via") == "schedule": sch.schedule(b)
+      else: b.start(sch, fast=True)
     for i in range(p.get("tasks", 2)):
       t = One()
       st["want"] += 1
@@ -242,6 +256,7 @@ def configs (quick):
         cs.append(dict(base, bound=2, rotate=True))
       if name == "idle":
         cs.append(dict(base, bound=2, via="schedule"))
+        cs.append(dict(base, bound=2, bad=2, tasks=1))
       if name == "wake":
         cs.append(dict(base, bound=2, reyield=3))
       if name == "sync":
@@ -283,7 +298,8 @@ def cfg_name (c):
                              "/opcode" if c.get("opcode") else "", "/rotate" if c.get("rotate") else "",
                              ("/via-schedule" if c.get("via") else "") + ("/reyield" if c.get("reyield") else "")
                              + ("/real-pinger" if c.get("real_pinger") else "") + ("/raiser-" + c["raiser"] if c.get("raiser") else "")
-                             + ("/via-core" if c.get("via_core") else "") + ("/calls%d" % c["calls"] if c.get("calls", 0) > 3 else ""))
+                             + ("/via-core" if c.get("via_core") else "") + ("/calls%d" % c["calls"] if c.get("calls", 0) > 3 else "")
+                             + ("/failing-tasks" if c.get("bad") else ""))
 
 
 def _worker (item):
